@@ -1,9 +1,10 @@
 /-
   C13 — A failed statement has no effect.
-  Statements only (helper lemmas: Nervus.Proofs.Txn).  Model: Nervus.Model.Txn (`codeStep` = the C API's
+  Statements only (helper lemmas: Nervus.Proofs.Txn).  Model: Nervus.Model.Txn.  `codeStep` is the C API's
   execute_write_count / execute_write_in_txn / ndb_txn_commit / ndb_txn_rollback over the row-by-row staging of the
-  write executors).  Reference: Nervus.Spec.TxnSem.atomicStep — the same semantics except that a failed statement
-  of an explicit transaction leaves the staged writes as they were.
+  write executors; its two switches are read off the source on every build (`Generated.CapiTxn`).  After the
+  statement-savepoint fix `codeStep = step true false`; the pinned tree was `step false false` (`legacyRun`) and is
+  kept for the counterexample theorems.
 -/
 import Nervus.Proofs.Txn
 namespace Nervus.Props.C13
@@ -13,97 +14,81 @@ open Nervus.Txn Nervus.Spec.TxnSem
     transaction that is committed later), the database evolves as if the failed statements had not been issued. -/
 def C13_full : Prop := ∀ (σ : State) (ops : List Op), codeRun σ ops = atomicRun σ ops
 
-/-- one-step form of the same demand: a statement that returns an error leaves the whole state (committed graph,
-    id counter, staged writes) untouched -/
-def failed_stmt_no_effect_full : Prop :=
-  ∀ (σ : State) (op : Op), (codeStep σ op).2 = .err → (codeStep σ op).1 = σ
+/-- **C13** holds on the repaired code, for all states and histories. -/
+theorem C13 : C13_full := fun σ ops => by rw [codeRun_def]
 
-/-- **auto-commit**: the statement's private transaction is dropped on error — holds for every state and statement. -/
-theorem failed_stmt_no_effect_autocommit (σ : State) (s : Stmt) (h : (codeStep σ (.auto s)).2 = .err) :
-    (codeStep σ (.auto s)).1 = σ := by
+/-- **failed_stmt_no_effect** (one step, full strength): an operation that returns an error leaves the whole state —
+    committed graph, id counter, staged writes of the open transaction — exactly as it was. -/
+theorem failed_stmt_no_effect (σ : State) (op : Op) (h : (codeStep σ op).2 = .err) : (codeStep σ op).1 = σ := by
   rw [codeStep_def] at h ⊢
-  simp only [step] at h ⊢
-  cases hst : σ.staged with
-  | some ps => simp [hst] at h
-  | none =>
-    simp only [hst] at h ⊢
-    split
-    · rfl
-    · rename_i hf; simp [hf] at h
-
-/-- **explicit transaction, one step**: a statement that fails *before it has staged anything* (syntax error, refused
-    by the write classifier, error on the first evaluated row of a SET) leaves the staged writes as they were. -/
-theorem failed_stmt_no_effect (σ : State) (s : Stmt) (htrig : partialEffect σ s = false)
-    (h : (codeStep σ (.tq s)).2 = .err) : (codeStep σ (.tq s)).1 = σ := by
-  have heq : codeStep σ (.tq s) = atomicStep σ (.tq s) := by
-    rw [codeStep_def]
-    exact step_atomic_eq false σ (.tq s) (fun s' hs ps hst => by cases hs; exact partialEffect_false_iff σ s ps hst htrig)
-  rw [heq] at h ⊢
   obtain ⟨c, a, st⟩ := σ
-  simp only [atomicStep, step] at h ⊢
-  cases st with
-  | none => simp at h
-  | some ps =>
-    simp only [Bool.false_eq_true, if_false, if_true] at h ⊢
-    split
-    · rfl
-    · rename_i hf; simp [hf] at h
+  cases op with
+  | auto s =>
+    cases st with
+    | some ps => simp [step] at h
+    | none =>
+      simp only [step] at h ⊢
+      split
+      · rfl
+      · rename_i hf; simp [hf] at h
+  | tq s =>
+    cases st with
+    | none => simp [step] at h
+    | some ps =>
+      simp only [step, Bool.false_eq_true, if_false, if_true] at h ⊢
+      split
+      · rfl
+      · rename_i hf; simp [hf] at h
+  | begin => cases st <;> simp [step] at h
+  | commit => cases st <;> simp [step] at h
+  | rollback => cases st <;> simp [step] at h
 
-/-- **C13_partial**: for every history in which no statement of an explicit transaction fails after staging
-    (trigger `anyPartialEffect`, decidable on the history), the code behaves as if failed statements had not been
-    issued — by induction over the history. -/
-theorem C13_partial (σ : State) (ops : List Op) (htrig : anyPartialEffect σ ops = false) :
-    codeRun σ ops = atomicRun σ ops := by
-  rw [codeRun_def]
-  exact atomic_run_eq false ops σ (fun pre s post hsplit ps hst => by
-    have := anyPartialEffect_false ops σ htrig pre s post hsplit ps (by rw [codeRun_def]; exact hst)
-    rw [codeRun_def] at this
-    simpa using this)
+/-- in particular what a later commit persists does not depend on the failed statement -/
+theorem failed_stmt_then_commit (σ : State) (s : Stmt) (h : (codeStep σ (.tq s)).2 = .err) :
+    codeStep (codeStep σ (.tq s)).1 .commit = codeStep σ .commit := by
+  rw [failed_stmt_no_effect σ (.tq s) h]
 
-/-- rolling the transaction back discards the partial effects (the defect needs a later commit) -/
+/-- rolling back discards everything staged -/
 theorem rollback_discards (σ : State) (ps : List Prim) (h : σ.staged = some ps) :
     (codeStep σ .rollback).1 = ⟨σ.committed, σ.allocated, none⟩ := by
   simp [codeStep_def, step, h]
 
-/-! ### non-vacuity -/
+/-! ### non-vacuity: the former witnesses, on the repaired code -/
 
-/-- a history with failing statements (refused, and a SET whose first row fails) that meets `C13_partial` -/
-def okHistory : List Op :=
-  [.auto (.create 0 [(1, .one), (2, .t)] false), .begin, .tq .refused, .tq (.setp 0), .tq (.create 1 [(3, .f)] true),
-   .commit, .auto (.create 0 [(4, .one)] true)]
-
-example : anyPartialEffect State.init okHistory = false := by decide
-example : (codeRun State.init okHistory).committed =
-    [⟨0, 0, 1, some .one, none⟩, ⟨1, 0, 2, some .t, none⟩, ⟨2, 1, 3, some .f, some false⟩] := by decide
-example : (codeStep (codeRun State.init (okHistory.take 3)) (.tq (.setp 0))).2 = .err := by decide
-
-/-! ### the defect (known finding C13-explicit-txn-partial-effects), replayed by corpus/capi/*.ops -/
-
-/-- `UNWIND [[1,true],[2,true],[3,1]] AS r CREATE (:A {k: r[0], q: r[1], p: toBoolean(r[1])})` fails at its third
-    row inside an explicit transaction; the later commit persists three `:A` nodes (the node of the failing row is
-    staged before its property expression is checked). -/
 def witness : List Op := [.begin, .tq (.create 0 [(1, .t), (2, .t), (3, .one)] true), .commit]
-
-theorem counterexample_create :
-    (codeStep (codeRun State.init [.begin]) (.tq (.create 0 [(1, .t), (2, .t), (3, .one)] true))).2 = .err ∧
-      (codeRun State.init witness).committed.length = 3 ∧ (atomicRun State.init witness).committed = [] := by decide
-
-/-- the same with an update: `MATCH (n:A) SET n.p = toBoolean(n.q)` over `q = true, 'x', 1, false` fails at the
-    third node after the first two have been updated. -/
 def witnessSet : List Op :=
   [.auto (.create 0 [(1, .t), (2, .x), (3, .one), (4, .f)] false), .begin, .tq (.setp 0), .commit]
 
+example : (codeStep (codeRun State.init [.begin]) (.tq (.create 0 [(1, .t), (2, .t), (3, .one)] true))).2 = .err := by
+  decide
+example : (codeRun State.init witness).committed = [] := by decide
+example : (codeRun State.init witnessSet).committed.map (·.p) = [none, none, none, none] := by decide
+
+/-! ### the pinned tree (before the fix): `ndb_txn_query` ran the statement on the caller's transaction and
+    returned the error as is — replayed by corpus/capi/*.ops -/
+
+/-- `UNWIND [[1,true],[2,true],[3,1]] AS r CREATE (:A {k: r[0], q: r[1], p: toBoolean(r[1])})` fails at its third
+    row; the later commit persisted three `:A` nodes (the node of the failing row is staged before its property
+    expression is checked). -/
+theorem counterexample_create :
+    (legacyRun State.init witness).committed.length = 3 ∧ (atomicRun State.init witness).committed = [] := by decide
+
+/-- `MATCH (n:A) SET n.p = toBoolean(n.q)` over `q = true, 'x', 1, false` failed at the third node after the first
+    two had been updated. -/
 theorem counterexample_set :
-    (codeRun State.init witnessSet).committed.map (·.p) = [some true, none, none, none] ∧
+    (legacyRun State.init witnessSet).committed.map (·.p) = [some true, none, none, none] ∧
       (atomicRun State.init witnessSet).committed.map (·.p) = [none, none, none, none] ∧
       anyPartialEffect State.init witnessSet = true := by decide
 
-theorem C13_full_false : ¬ C13_full := fun h => by
-  have := h State.init witness
-  exact absurd this (by decide)
+/-- what did hold there: histories without a statement failing after it had staged something -/
+theorem pinned_tree_partial (σ : State) (ops : List Op) (htrig : anyPartialEffect σ ops = false) :
+    legacyRun σ ops = atomicRun σ ops :=
+  atomic_run_eq false ops σ (fun pre s post hsplit ps hst => by
+    have := anyPartialEffect_false ops σ htrig pre s post hsplit ps hst
+    simpa using this)
 
-theorem failed_stmt_no_effect_full_false : ¬ failed_stmt_no_effect_full := fun h => by
-  have := h (codeRun State.init [.begin]) (.tq (.create 0 [(1, .t), (2, .t), (3, .one)] true)) (by decide)
+theorem pinned_tree_violates : ¬ (∀ (σ : State) (ops : List Op), legacyRun σ ops = atomicRun σ ops) := fun h => by
+  have := h State.init witness
   exact absurd this (by decide)
 
 end Nervus.Props.C13
